@@ -8,7 +8,7 @@ use rdp::model::link::{Link, Stream};
 use serde::{Deserialize, Serialize};
 
 pub const LEVEL: &str = "fault_enumeration";
-pub const RULE: &str = "case = (entry point Link::write | tpkt::Client::write | x224::Client::write, payload length, writer behaviour = per-call caps / Ok(0) / EINTR schedule, optional hard error injected at byte position p). Oracle against the reference framing F of the payload: bytes accepted by the writer are always a prefix of F; Ok implies all of F was accepted; a writer that never fails and accepts >= 1 byte per call implies Ok; an injected hard error before |F| implies Err; a payload that does not fit the 16-bit TPKT length implies Err with nothing written. boundary-sweep enumerates every length around the 16-bit boundaries and every error position for small frames; all-lengths every payload length 0..=65540 at each entry point with whole and 4096-byte partial writes; sequences and 30 % of the generated cases write several messages through the same client (the reference stream is the concatenation of the frames of the messages that fit; an oversized message in between must be refused without a byte and must not disturb the next one). Non-trivial = at least one short write, an injected error, or a length within 8 of a 16-bit boundary; distinct by hash of the case.";
+pub const RULE: &str = "case = (entry point Link::write | tpkt::Client::write | x224::Client::write, payload length, writer behaviour = per-call caps / Ok(0) / EINTR schedule, optional hard error injected at byte position p). Oracle against the reference framing F of the payload: bytes accepted by the writer are always a prefix of F; Ok implies all of F was accepted; a writer that never fails and accepts >= 1 byte per call implies Ok; an injected hard error before |F| implies Err; a payload that does not fit the 16-bit TPKT length implies Err with nothing written. boundary-sweep enumerates every length around the 16-bit boundaries and every error position for small frames; all-lengths every payload length 0..=65540 at each entry point with whole and 4096-byte partial writes; sequences and 30 % of the generated cases write several messages through the same client (per message: the bytes the stream accepts during the call are a prefix of that message's frame and all of it iff Ok; an oversized message in between must be refused without a byte; after a transient stream error (one failing call, WStep::Fail) the failed message is reported and the next message must again go out as exactly its own frame). Non-trivial = at least one short write, an injected error, or a length within 8 of a 16-bit boundary; distinct by hash of the case.";
 
 #[derive(Serialize, Deserialize, Hash, Clone, Debug)]
 pub struct Case {
@@ -65,15 +65,18 @@ pub fn run(c: &Case) -> Outcome {
         out.label("several-messages");
     }
     let never_fails = c.fail_at.map(|p| p as usize >= total).unwrap_or(true) && c.schedule.iter().all(|s| matches!(s, WStep::Cap(_)));
+    if c.schedule.iter().any(|s| matches!(s, WStep::Fail)) {
+        out.label("transient-error");
+    }
     let (w, acc) = AdvWriter::new(c.schedule.clone(), c.fail_at.map(|x| x as usize));
+    let hard = w.hard_errors.clone();
     let link = Link::new(Stream::Raw(w));
     let mut layer = match c.entry {
         0 => Layer::L(link),
         1 => Layer::T(tpkt::Client::new(link)),
         _ => Layer::X(x224::Client::from_transport(tpkt::Client::new(link), x224::Protocols::ProtocolSSL)),
     };
-    // the reference byte stream: the frames of all messages that fit, in order
-    let mut f: Vec<u8> = Vec::new();
+    // per message: what the stream accepts during the call is a prefix of that message's frame, all of it iff Ok
     for (k, len) in lens.iter().enumerate() {
         let p = payload(c.fill.wrapping_add(k as u32), *len);
         let flen = p.len() + hdr;
@@ -81,24 +84,25 @@ pub fn run(c: &Case) -> Outcome {
         if too_big {
             out.label("too-big");
         }
-        let start = f.len();
-        if !too_big {
-            if c.entry != 0 {
-                f.extend_from_slice(&[3, 0, ((flen >> 8) & 0xFF) as u8, (flen & 0xFF) as u8]);
-            }
-            if c.entry == 2 {
-                f.extend_from_slice(&[2, 0xF0, 0x80]);
-            }
-            f.extend_from_slice(&p);
+        let mut f: Vec<u8> = Vec::with_capacity(flen);
+        if c.entry != 0 {
+            f.extend_from_slice(&[3, 0, ((flen >> 8) & 0xFF) as u8, (flen & 0xFF) as u8]);
         }
+        if c.entry == 2 {
+            f.extend_from_slice(&[2, 0xF0, 0x80]);
+        }
+        f.extend_from_slice(&p);
         let before = acc.borrow().len();
+        let hard_before = *hard.borrow();
         let (r, _) = call(|| match &mut layer {
             Layer::L(l) => l.write(&p),
             Layer::T(t) => t.write(p.clone()),
             Layer::X(x) => x.write(p.clone()),
         });
-        let got = acc.borrow();
+        let all = acc.borrow();
+        let got = &all[before..];
         let is_prefix = got.len() <= f.len() && got[..] == f[..got.len()];
+        let hard_hit = *hard.borrow() > hard_before;
         match r {
             Res::Panic(pi) => {
                 fail_panic(&mut out, &format!("{}.write", name), &pi);
@@ -107,12 +111,15 @@ pub fn run(c: &Case) -> Outcome {
             Res::Ok(()) => {
                 out.label("ok");
                 if too_big {
-                    out.fail(format!("write:{}:oversized-accepted", name), format!("message #{}: payload of {} bytes does not fit a 16-bit TPKT length but write returned Ok; {} bytes emitted, header {:02x?}", k, len, got.len() - before, &got[before..got.len().min(before + 4)]));
+                    out.fail(format!("write:{}:oversized-accepted", name), format!("message #{}: payload of {} bytes does not fit a 16-bit TPKT length but write returned Ok; {} bytes emitted, header {:02x?}", k, len, got.len(), &got[..got.len().min(4)]));
+                    return out;
+                } else if hard_hit {
+                    out.fail(format!("write:{}:error-swallowed", name), format!("message #{}: the stream returned a hard error during the call but write returned Ok", k));
                     return out;
                 } else if got[..] != f[..] {
                     out.fail(
                         format!("write:{}:ok-but-incomplete", name),
-                        format!("message #{} ({} bytes): write returned Ok but the stream holds {} of {} bytes (prefix ok: {}; this frame starts at {}); schedule {:?} fail_at {:?}", k, len, got.len(), f.len(), is_prefix, start, &c.schedule[..c.schedule.len().min(6)], c.fail_at),
+                        format!("message #{} ({} bytes): write returned Ok but the stream accepted {} bytes during the call, the frame has {} (prefix ok: {}; hard error during the call: {}); schedule {:?} fail_at {:?}", k, len, got.len(), f.len(), is_prefix, hard_hit, &c.schedule[..c.schedule.len().min(6)], c.fail_at),
                     );
                     return out;
                 }
@@ -120,19 +127,19 @@ pub fn run(c: &Case) -> Outcome {
             Res::Err(e) => {
                 out.label("err");
                 if too_big {
-                    if got.len() != before {
-                        out.fail(format!("write:{}:oversized-partial", name), format!("message #{}: oversized payload refused but {} bytes were written", k, got.len() - before));
+                    if !got.is_empty() {
+                        out.fail(format!("write:{}:oversized-partial", name), format!("message #{}: oversized payload refused but {} bytes were written", k, got.len()));
                         return out;
                     }
-                    // refused cleanly: later messages must still go out
-                    continue;
                 } else if !is_prefix {
-                    out.fail(format!("write:{}:not-a-prefix", name), format!("message #{}: bytes accepted by the stream are not a prefix of the frames ({} bytes accepted)", k, got.len()));
+                    out.fail(format!("write:{}:not-a-prefix", name), format!("message #{}: the {} bytes accepted by the stream during the call are not a prefix of the message's frame", k, got.len()));
+                    return out;
                 } else if never_fails {
                     out.fail(format!("write:{}:spurious-error", name), format!("message #{}: stream never failed and accepted at least one byte per call, yet write returned Err({}) after {} of {} bytes", k, e, got.len(), f.len()));
+                    return out;
                 }
-                // a reported transport error ends the conversation
-                return out;
+                // a reported error: the next message is a message of its own (after a transient error the
+                // stream works again; after a permanent one every later write fails without a byte)
             }
         }
     }
@@ -150,9 +157,10 @@ fn schedule(s: &mut Src) -> Vec<WStep> {
         _ => {
             let k = 1 + s.below(5);
             (0..k)
-                .map(|_| match s.below(10) {
+                .map(|_| match s.below(11) {
                     0 => WStep::Zero,
                     1 => WStep::Interrupted,
+                    10 => WStep::Fail,
                     _ => WStep::Cap(1 + s.small(2000) as u16),
                 })
                 .collect()
@@ -180,10 +188,11 @@ pub fn decode(s: &mut Src) -> Case {
     if !sch.is_empty() && !sch.iter().any(|x| matches!(x, WStep::Cap(_))) {
         sch.push(WStep::Cap(1));
     }
+    let transient = sch.iter().any(|x| matches!(x, WStep::Fail));
     let flen = len + [0, 4, 7][entry as usize];
     let fail_at = if s.chance(96) { Some(s.below(flen as usize + 2) as u32) } else { None };
     let fill = s.u32();
-    let more = if s.chance(80) { (0..1 + s.below(4)).map(|_| gen_len(s)).collect() } else { Vec::new() };
+    let more = if s.chance(80) || transient { (0..1 + s.below(4)).map(|_| gen_len(s)).collect() } else { Vec::new() };
     Case { entry, len, schedule: sch, fail_at, fill, more }
 }
 
@@ -231,7 +240,7 @@ fn all_lengths(part: usize, parts: usize) -> impl Iterator<Item = Case> {
 fn sequences() -> Vec<Case> {
     let mut v = Vec::new();
     for entry in 0..3u8 {
-        for sch in [vec![], vec![WStep::Cap(7)], vec![WStep::Cap(1000), WStep::Interrupted, WStep::Cap(1)]] {
+        for sch in [vec![], vec![WStep::Cap(7)], vec![WStep::Cap(1000), WStep::Interrupted, WStep::Cap(1)], vec![WStep::Fail, WStep::Cap(5000), WStep::Cap(5000), WStep::Cap(5000)], vec![WStep::Cap(3), WStep::Fail, WStep::Cap(60000), WStep::Cap(60000), WStep::Cap(60000), WStep::Cap(60000), WStep::Cap(60000)], vec![WStep::Cap(60000), WStep::Cap(60000), WStep::Fail]] {
             for lens in [vec![10u32, 70000, 10], vec![0, 0, 0, 1], vec![65528, 65529, 65530, 65531, 65532, 65533, 5], vec![5000, 40, 5000, 40, 9000], vec![100; 40], vec![1, 2, 4, 8, 16, 32, 64, 128, 256, 512, 1024, 2048, 4096, 8192, 16384, 32768, 65000], vec![65000, 3, 65000, 3]] {
                 v.push(Case { entry, len: lens[0], schedule: sch.clone(), fail_at: None, fill: 77, more: lens[1..].to_vec() });
                 let total: u32 = lens.iter().filter(|l| **l < 65529).map(|l| l + 7).sum();
@@ -254,4 +263,5 @@ pub fn check(rep: &Report) {
     rep.require("schedules", "short-writes", 1000);
     rep.require("schedules", "injected-error", 1000);
     rep.require("schedules", "several-messages", 1000);
+    rep.require("schedules", "transient-error", 1000);
 }
